@@ -44,17 +44,26 @@ func SimpleSourceFunction(env *Zlisp, name string, args []Sexp) (Sexp, error) {
 
 // existing
 
-// SourceExpressions, this should be called from a user func context
+// SourceExpressions compiles the expressions into a function of their
+// own and runs it at once. The data stack is left as it was found; the
+// source builtin gets the value through sourceExpressions.
 func (env *Zlisp) SourceExpressions(expressions []Sexp) error {
+	_, err := env.sourceExpressions(expressions)
+	return err
+}
+
+// sourceExpressions returns the value of the last expression, nil when
+// there is nothing to evaluate.
+func (env *Zlisp) sourceExpressions(expressions []Sexp) (Sexp, error) {
 	gen := NewGenerator(env)
 
 	err := gen.GenerateBegin(expressions)
 	if err != nil {
-		return err
+		return SexpNull, err
 	}
-	//P("debug: in SourceExpressions, FROM expressions='%s'", (&SexpArray{Val: expressions, Env: env}).SexpString(0))
-	//P("debug: in SourceExpressions, gen=")
-	//DumpFunction(ZlispFunction(gen.instructions), -1)
+	if len(gen.instructions) == 0 {
+		return SexpNull, nil
+	}
 	curfunc := env.curfunc
 	curpc := env.pc
 	defer func() {
@@ -66,32 +75,26 @@ func (env *Zlisp) SourceExpressions(expressions []Sexp) error {
 		gen.instructions, nil)
 	env.pc = 0
 
-	result, err := env.Run()
-	if err != nil {
-		return err
-	}
-
-	//P("end of SourceExpressions, result going onto datastack is: '%s'", result.SexpString(0))
-	env.datastack.PushExpr(result)
-
-	//P("debug done with Run in source, now stack is:")
-	//env.datastack.PrintStack()
-
-	return nil
+	return env.Run()
 }
 
 func (env *Zlisp) SourceStream(stream io.RuneScanner) error {
+	_, err := env.sourceStream(stream)
+	return err
+}
+
+func (env *Zlisp) sourceStream(stream io.RuneScanner) (Sexp, error) {
 	env.parser.ResetAddNewInput(stream)
 	expressions, err := env.parser.ParseTokens()
 	if err != nil {
-		return errors.New(fmt.Sprintf(
+		return SexpNull, errors.New(fmt.Sprintf(
 			"Error parsing on line %d: %v\n", env.parser.Linenum(), err))
 	}
 
 	// like LoadExpressions in environment.go, remove comments.
 	expressions = env.FilterArray(expressions, RemoveCommentsFilter)
 
-	return env.SourceExpressions(expressions)
+	return env.sourceExpressions(expressions)
 }
 
 func (env *Zlisp) SourceFile(file *os.File) error {
@@ -103,25 +106,22 @@ func SourceFileFunction(env *Zlisp, name string, args []Sexp) (Sexp, error) {
 		return SexpNull, WrongNargs
 	}
 
+	// the value of the form is the value of the last file
+	var result Sexp = SexpNull
 	for _, v := range args {
-		if err := env.sourceItem(v); err != nil {
+		if err := env.sourceItem(v, &result); err != nil {
 			return SexpNull, err
 		}
-	}
-
-	result, err := env.datastack.PopExpr()
-	if err != nil {
-		return SexpNull, err
 	}
 	return result, nil
 }
 
 // helper for SourceFileFunction recursion
-func (env *Zlisp) sourceItem(item Sexp) error {
+func (env *Zlisp) sourceItem(item Sexp, result *Sexp) error {
 	switch t := item.(type) {
 	case *SexpArray:
 		for _, v := range t.Val {
-			if err := env.sourceItem(v); err != nil {
+			if err := env.sourceItem(v, result); err != nil {
 				return err
 			}
 		}
@@ -129,7 +129,7 @@ func (env *Zlisp) sourceItem(item Sexp) error {
 		expr := item
 		for expr != SexpNull {
 			list := expr.(*SexpPair)
-			if err := env.sourceItem(list.Head); err != nil {
+			if err := env.sourceItem(list.Head, result); err != nil {
 				return err
 			}
 			expr = list.Tail
@@ -142,7 +142,7 @@ func (env *Zlisp) sourceItem(item Sexp) error {
 			return err
 		}
 		defer f.Close()
-		if err = env.SourceFile(f); err != nil {
+		if *result, err = env.sourceStream(bufio.NewReader(f)); err != nil {
 			return err
 		}
 
